@@ -15,7 +15,7 @@ use refmodel::h2c::{expand_message, hash_to_fq, hash_to_fq2, hash_to_fr, os2ip_m
 use serde::{Deserialize, Serialize};
 
 pub fn expander_of(i: u8) -> Expander {
-    Expander::all()[i as usize % 4]
+    Expander::all_extended()[i as usize % 8]
 }
 
 pub fn crate_expand(e: Expander, msg: &[u8], dst: &[u8], len: usize) -> Vec<u8> {
@@ -24,6 +24,10 @@ pub fn crate_expand(e: Expander, msg: &[u8], dst: &[u8], len: usize) -> Vec<u8> 
         Expander::XmdSha512 => ExpandMsgXmd::<sha2::Sha512>::expand_message(msg, dst, len),
         Expander::XofShake128 => ExpandMsgXof::<sha3::Shake128>::expand_message(msg, dst, len),
         Expander::XofShake256 => ExpandMsgXof::<sha3::Shake256>::expand_message(msg, dst, len),
+        Expander::XmdSha224 => ExpandMsgXmd::<sha2::Sha224>::expand_message(msg, dst, len),
+        Expander::XmdSha384 => ExpandMsgXmd::<sha2::Sha384>::expand_message(msg, dst, len),
+        Expander::XmdSha512t224 => ExpandMsgXmd::<sha2::Sha512Trunc224>::expand_message(msg, dst, len),
+        Expander::XmdSha512t256 => ExpandMsgXmd::<sha2::Sha512Trunc256>::expand_message(msg, dst, len),
     }
 }
 
@@ -57,7 +61,7 @@ fn len_strategy() -> BoxedStrategy<LenR> {
 }
 
 fn expand_case_strategy() -> BoxedStrategy<ExpandCase> {
-    (0u8..4, msg_strategy(), dst_strategy(), len_strategy()).prop_map(|(expander, msg, dst, len)| ExpandCase { expander, msg, dst, len }).boxed()
+    (0u8..8, msg_strategy(), dst_strategy(), len_strategy()).prop_map(|(expander, msg, dst, len)| ExpandCase { expander, msg, dst, len }).boxed()
 }
 
 fn check_expand(c: &ExpandCase, info: &mut Info) -> Result<(), String> {
@@ -127,7 +131,7 @@ fn expand_seq_strategy() -> BoxedStrategy<ExpandSeq> {
         3 => dst_strategy().prop_map(ExpVariant::OtherDst),
         3 => msg_strategy().prop_map(ExpVariant::OtherMsg),
         3 => len_strategy().prop_map(ExpVariant::OtherLen),
-        2 => (0u8..4).prop_map(ExpVariant::OtherExpander),
+        2 => (0u8..8).prop_map(ExpVariant::OtherExpander),
         1 => any::<u8>().prop_map(ExpVariant::OutOfDomainTag),
     ];
     (expand_case_strategy(), proptest::collection::vec(v, 1..5)).prop_map(|(base, variants)| ExpandSeq { base, variants }).boxed()
@@ -272,7 +276,7 @@ pub struct H2fCase {
 
 fn h2f_strategy() -> BoxedStrategy<H2fCase> {
     let count = prop_oneof![8 => 0u8..=8, 1 => 9u8..=60];
-    (0u8..4, 0u8..3, msg_strategy(), dst_strategy(), count).prop_map(|(expander, field, msg, dst, count)| H2fCase { expander, field, msg, dst, count }).boxed()
+    (0u8..8, 0u8..3, msg_strategy(), dst_strategy(), count).prop_map(|(expander, field, msg, dst, count)| H2fCase { expander, field, msg, dst, count }).boxed()
 }
 
 fn h2f_crate<T: FromRO>(e: Expander, msg: &[u8], dst: &[u8], count: usize) -> Vec<T> {
@@ -281,6 +285,10 @@ fn h2f_crate<T: FromRO>(e: Expander, msg: &[u8], dst: &[u8], count: usize) -> Ve
         Expander::XmdSha512 => hash_to_field::<T, ExpandMsgXmd<sha2::Sha512>>(msg, dst, count),
         Expander::XofShake128 => hash_to_field::<T, ExpandMsgXof<sha3::Shake128>>(msg, dst, count),
         Expander::XofShake256 => hash_to_field::<T, ExpandMsgXof<sha3::Shake256>>(msg, dst, count),
+        Expander::XmdSha224 => hash_to_field::<T, ExpandMsgXmd<sha2::Sha224>>(msg, dst, count),
+        Expander::XmdSha384 => hash_to_field::<T, ExpandMsgXmd<sha2::Sha384>>(msg, dst, count),
+        Expander::XmdSha512t224 => hash_to_field::<T, ExpandMsgXmd<sha2::Sha512Trunc224>>(msg, dst, count),
+        Expander::XmdSha512t256 => hash_to_field::<T, ExpandMsgXmd<sha2::Sha512Trunc256>>(msg, dst, count),
     }
 }
 
@@ -329,7 +337,7 @@ fn check_h2f(c: &H2fCase, info: &mut Info) -> Result<(), String> {
 pub fn def() -> PropDef {
     PropDef {
         id: "C13",
-        rule: "(expander in {XMD-SHA-256, XMD-SHA-512, XOF-SHAKE128, XOF-SHAKE256}, msg, dst, len) with message lengths 0, 1 and around every SHA-2 / SHAKE block boundary, occasional long messages (<= 20 kB), tags of length 0, 1, 16, 43, 254, 255 and others, lengths k*b+-1 for k up to 255, exact lengths up to 65535, and the must-abort class 255*b+1.. for XMD; 64-/48-/128-byte blocks (zero, all-ones, m*p+-d just around multiples of the modulus, uniform) through from_okm / from_ro; hash_to_field for Fq, Fr, Fq2 with count 0..=8 (occasionally up to 60). Oracle: model expand_message_xmd / _xof and OS2IP mod p written from RFC 9380 section 5. Non-trivial = partial block, block-boundary message, long tag or many blocks (expand); non-zero block; count >= 1; distinct = distinct cases",
+        rule: "(expander in {XMD-SHA-256, XMD-SHA-512, XOF-SHAKE128, XOF-SHAKE256 and - the XMD construction being generic in the Merkle-Damgard hash - XMD-SHA-224, XMD-SHA-384, XMD-SHA-512/224, XMD-SHA-512/256, whose digest size is not half the block size}, msg, dst, len) with message lengths 0, 1 and around every SHA-2 / SHAKE block boundary, occasional long messages (<= 20 kB), tags of length 0, 1, 16, 43, 254, 255 and others, lengths k*b+-1 for k up to 255, exact lengths up to 65535, and the must-abort class 255*b+1.. for XMD; 64-/48-/128-byte blocks (zero, all-ones, m*p+-d just around multiples of the modulus, uniform) through from_okm / from_ro; hash_to_field for Fq, Fr, Fq2 with count 0..=8 (occasionally up to 60). Oracle: model expand_message_xmd / _xof and OS2IP mod p written from RFC 9380 section 5. Non-trivial = partial block, block-boundary message, long tag or many blocks (expand); non-zero block; count >= 1; distinct = distinct cases",
         needs_pairing: false,
         subs: vec![
             Box::new(Sub { name: "expand-message", rule: "bytes equal the RFC; requests beyond 255 blocks abort", quick: 60_000, thorough: 250_000, strategy: || boxed(expand_case_strategy()), check: check_expand }),
